@@ -154,6 +154,14 @@ NOTES = {
     'C11-tiny-block-skip': 'round 2, first run: MISSED (product tolerance was absolute for small matrices). r_C11 checks Q R = A relative to |A| and scales matrices / single blocks by 1e-18 ... 1e12',
     'C14-arnoldi-early-exit-axis': 'round 2, first run: CHECKER-BROKEN (a refuted obligation is assumed afterwards, which made the path condition contradictory and the canary provable). Canary policy corrected; now refuted `sizes_consistent` + bounded',
     'C14-lanczos-relative-breakdown': 'round 2, first run: MISSED. r_C14 has maps with exact exhaustion (zero map, integer diagonal with null start vector) and a `finite` clause',
+    'C02-svd-nooverlap-after-sort': 'round 3, first run: MISSED (support clause of split_matrix_svd lost its proof, no failing input). r_C02 now splits identically vanishing blocks with disjoint, unsorted charges (dead bonds); the qr/svd block-loop contracts are part of the C02 check',
+    'C05-padding-assumes-identity-id-zero': 'round 3, first run: MISSED. Every seventh chain case of r_C05 uses an identity id other than 0',
+    'C14-lanczos-local-reorthogonalization': 'round 3, first run: MISSED. r_C14 has stiff spectra (cluster + outliers 1e2..1e3, n <= 40, 8-24 iterations)',
+    'C20-stale-nonzero-flag': 'round 3, first run: MISSED. r_C20 / r_C05 recompile the same OpChain objects after coefficients were switched off / changed, for a longer lattice and after a translation',
+    'C09-singlesite-ltr-reshape-old-shape': 'round 3, first run: MISSED by C09 (reverse kind only had bond profiles that cannot shrink). Over-complete profiles added (both calls must return)',
+    'C15-breakdown-eps-from-vector-dtype': 'round 3, first run: MISSED. r_C15 has single-precision start vectors with operators of norm 1e-5..1e-3',
+    'C15-expm-general-eigendecomposition': 'round 3, first run: MISSED. r_C15 / r_C14 have defective matrices (Jordan blocks in a unitary basis)',
+    'C01-left-qr-next-tensor-cast': 'round 3, first run: MISSED. r_C01 has per-site mixed entry kinds (real, complex and integer site tensors in one object)',
     'C06-zero-coeff-filter-tolerance': 'first run: MISSED. r_C06 now includes parameter points scaled by 1e-9 ... 1e+12 (every parameter value is legal)',
 }
 
